@@ -168,6 +168,16 @@ def run(ctx: core.Run):
         _logging.disable(_lvl)
     ctx.extra["creation_table_rows"] = len(creation)
     ctx.prove(["PsdVerif.Props.C03", "PsdVerif.Props.C03Pixels", "PsdVerif.Props.C03Creation"])
+    import c03_payload
+    recorder = c03_payload.Recorder().install()      # every file the skeleton walker accepts goes to the payload walkers too
+    try:
+        _run_rest(ctx, tables, creation, t0, c03_modes, _logging, _lvl)
+    finally:
+        recorder.remove()
+    c03_payload.run(ctx, cc.fixtures(), recorder)
+
+
+def _run_rest(ctx, tables, creation, t0, c03_modes, _logging, _lvl):
     ctx.trusted_base += [
         "Lean 4.33 kernel; axioms allowed: propext, Classical.choice, Quot.sound (audited per theorem)",
         "Model/Walker.lean: my transcription of the Adobe Photoshop File Formats Specification (sources and the three "
